@@ -21,10 +21,10 @@ import (
 func init() {
 	register(&Check{
 		ID: "C19",
-		Rule: "all 584 histories of length <=3 over the 8 invocations {spec with/without components} x {client on/off} x {api-handler on/off} into one directory (exhaustive), plus rapid state-machine histories of length <=8 whose steps also create/modify user files and pre-seed stale goag-owned files, a sample replayed through the CLI; " +
+		Rule: "all 584 histories of length <=3 over the 8 invocations {spec with/without components} x {client on/off} x {api-handler on/off} into one directory (exhaustive), plus rapid state-machine histories of length <=8 whose steps draw the spec from {small, larger} x {plain, upper-case path constants (output differs in letter case only), no paths at all} and also create/modify user files, pre-seed stale goag-owned files and tamper with generated ones (case flips, truncation, appended text, one byte, same-length garbage), a sample replayed through the CLI; " +
 			"oracle (model = fresh run of the same invocation into an empty directory): after every step the goag-owned names and bytes equal the fresh run's, user files are byte-identical, and repeating the step changes nothing; " +
 			"non-trivial = history whose last step removes or rewrites a file an earlier step created; distinct by history",
-		Assume: []string{"goag-owned files are exactly components.go, handler.go, router.go, spec_file.go, client.go (DESIGN.md §11)"},
+		Assume:    []string{"goag-owned files are exactly components.go, handler.go, router.go, spec_file.go, client.go (DESIGN.md §11)"},
 		Worker:    c19Worker,
 		MinNonTrv: 100,
 	})
@@ -54,8 +54,20 @@ func allInvocations() []invocation {
 	return out
 }
 
+// spec builds the document of one invocation. variant%10 is the size (0 small, 1-2
+// larger); variant/10 is the shape: 0 plain, 1 the same with upper-case path
+// constants (the output differs from shape 0 in letter case only), 2 no paths at all
+// (a models-only spec).
 func (iv invocation) spec(variant int) []byte {
+	shape := variant / 10
+	variant = variant % 10
 	d := specgen.NewDoc()
+	if shape == 2 {
+		if iv.Components {
+			d.Components = &specgen.Components{Schemas: map[string]*specgen.Schema{"Thing": {Type: "object", Properties: map[string]*specgen.Schema{"name": {Type: "string"}}}}}
+		}
+		return d.JSON()
+	}
 	d.Paths["/x"] = &specgen.PathItem{Get: specgen.MinimalOp()}
 	if variant > 0 {
 		// a larger spec: files shrink when a later step uses the small one
@@ -72,6 +84,13 @@ func (iv invocation) spec(variant int) []byte {
 				d.Components.Schemas[fmt.Sprintf("Extra%d", i)] = &specgen.Schema{Type: "object", Properties: map[string]*specgen.Schema{"n": {Type: "integer"}, "s": {Type: "string"}}}
 			}
 		}
+	}
+	if shape == 1 {
+		up := map[string]*specgen.PathItem{}
+		for k, v := range d.Paths {
+			up[strings.ReplaceAll(strings.ToUpper(k), "{ID}", "{id}")] = v
+		}
+		d.Paths = up
 	}
 	return d.JSON()
 }
@@ -250,9 +269,9 @@ func c19Worker(e *Env) *res.Result {
 	}
 	// (b) rapid state machine: longer histories with user files and stale files
 	userNames := []string{"notes.txt", "custom.go", "client_helpers.go", "handler_test.go", "components.go.bak", "router.go~", "README.md"}
-	n := 12
+	n := 40
 	if !e.Quick() {
-		n = 120
+		n = 300
 	}
 	var lastFail *res.Failure
 	prop := func(t *rapid.T) {
@@ -262,6 +281,7 @@ func c19Worker(e *Env) *res.Result {
 		users := map[string][]byte{}
 		var trace []string
 		steps := 0
+		tampered := false
 		t.Repeat(map[string]func(*rapid.T){
 			"generate": func(t *rapid.T) {
 				if steps >= 8 {
@@ -269,7 +289,7 @@ func c19Worker(e *Env) *res.Result {
 				}
 				steps++
 				iv := rapid.SampledFrom(invs).Draw(t, "invocation")
-				variant := rapid.IntRange(0, 2).Draw(t, "variant")
+				variant := rapid.IntRange(0, 2).Draw(t, "variant") + 10*rapid.SampledFrom([]int{0, 0, 1, 1, 2}).Draw(t, "shape")
 				trace = append(trace, fmt.Sprintf("generate %v variant=%d", iv, variant))
 				fail := cr.step(iv, variant, out, users, false)
 				r.Evaluations++
@@ -286,6 +306,33 @@ func c19Worker(e *Env) *res.Result {
 				os.WriteFile(filepath.Join(out, name), content, 0o644)
 				users[name] = content
 			},
+			"tamper": func(t *rapid.T) {
+				// an edit of a file goag owns is overwritten by the next run, whatever it was
+				name := rapid.SampledFrom(ownedFiles).Draw(t, "tampered")
+				bs, err := os.ReadFile(filepath.Join(out, name))
+				if err != nil || len(bs) == 0 {
+					t.Skip("no such file yet")
+				}
+				how := rapid.SampledFrom([]string{"upper-case", "lower-case", "truncate", "append", "one-byte", "same-length-garbage"}).Draw(t, "how")
+				switch how {
+				case "upper-case":
+					bs = bytes.ToUpper(bs)
+				case "lower-case":
+					bs = bytes.ToLower(bs)
+				case "truncate":
+					bs = bs[:len(bs)/2]
+				case "append":
+					bs = append(bs, []byte("\n// appended by hand\nvar appendedByHand = 1\n")...)
+				case "one-byte":
+					i := rapid.IntRange(0, len(bs)-1).Draw(t, "at")
+					bs[i] ^= 0x20
+				case "same-length-garbage":
+					bs = bytes.Repeat([]byte("x"), len(bs))
+				}
+				trace = append(trace, "tamper "+name+" "+how)
+				os.WriteFile(filepath.Join(out, name), bs, 0o644)
+				tampered = true
+			},
 			"stale": func(t *rapid.T) {
 				name := rapid.SampledFrom(ownedFiles).Draw(t, "stale")
 				trace = append(trace, "pre-seed stale "+name)
@@ -295,6 +342,9 @@ func c19Worker(e *Env) *res.Result {
 		if steps >= 2 {
 			r.NonTrivial("sm", strings.Join(trace, "|"))
 			r.Label("statemachine:history")
+			if tampered {
+				r.Label("statemachine:with-tampered-owned-file")
+			}
 			r.Sample(map[string]any{"statemachine_history": trace}, 6)
 		}
 	}
